@@ -49,9 +49,7 @@ func (db *db) set(id int, key string, tree *Tree) {
 			db.idxKey[key] = idx
 		}
 	}
-	if _, ok := db.idxHash[tree.hsum]; !ok {
-		db.idxHash[tree.hsum] = idx
-	}
+	db.idxHash[tree.hsum] = idx
 	db.mux.Unlock()
 }
 
@@ -110,7 +108,7 @@ func (db *db) getKey1(key, key1 string) (tpl *Tpl) {
 func (db *db) getTreeByHash(hsum uint64) *Tree {
 	db.mux.RLock()
 	defer db.mux.RUnlock()
-	if idx, ok := db.idxHash[hsum]; ok && idx >= 0 && idx < len(db.tpl) {
+	if idx, ok := db.idxHash[hsum]; ok && idx >= 0 && idx < len(db.tpl) && db.tpl[idx].tree.hsum == hsum {
 		return db.tpl[idx].tree
 	}
 	return nil
